@@ -268,7 +268,9 @@ func mutate(r *core.Rand, s string) string {
 }
 
 // ---------------------------------------------------------------------------------------------
-// known-finding class, decided from the input alone
+// input shapes on which the code failed before the repair of F10 / F26 (regression targets: they are
+// counted in the input distribution and generated on purpose, but they are NOT known-finding classes
+// any more — a failure on them is a VIOLATION like any other)
 
 // topFlagGroup reports whether a (valid) pattern has a flag group `(?flags)` outside every group.
 func topFlagGroup(src string) bool {
@@ -329,24 +331,90 @@ func splitRaw(raw string) prule {
 	return prule{raw, raw, false}
 }
 
-// leakClass: "flag-leak" iff, in the include sub-list or in the exclude sub-list, a rule with an
-// unscoped top-level flag group is followed by another rule (order=false), resp. shares the sub-list
-// with another rule (order=true, for the order-independence clause).
-func leakClass(rules []prule, order bool) string {
-	for _, excl := range []bool{false, true} {
-		var sub []prule
-		for _, r := range rules {
-			if r.exclude == excl {
-				sub = append(sub, r)
-			}
+// subLists returns the include rules and the exclude rules, each in list order.
+func subLists(rules []prule) [2][]prule {
+	var sub [2][]prule
+	for _, r := range rules {
+		if r.exclude {
+			sub[1] = append(sub[1], r)
+		} else {
+			sub[0] = append(sub[0], r)
 		}
+	}
+	return sub
+}
+
+// leakShape (the input shape of F10): in the include sub-list or in the exclude sub-list, a rule with
+// an unscoped top-level flag group is followed by another rule.
+func leakShape(rules []prule) bool {
+	for _, sub := range subLists(rules) {
 		for i, r := range sub {
-			if topFlagGroup(r.src) && (i+1 < len(sub) || order && len(sub) > 1) {
-				return "flag-leak"
+			if topFlagGroup(r.src) && i+1 < len(sub) {
+				return true
 			}
 		}
 	}
-	return ""
+	return false
+}
+
+// plainLetters returns the letters of a pattern outside escapes (rough: used for a histogram label only).
+func plainLetters(src string) (upper, any [26]bool) {
+	for i := 0; i < len(src); i++ {
+		c := src[i]
+		switch {
+		case c == '\\':
+			i++
+		case c >= 'A' && c <= 'Z':
+			upper[c-'A'], any[c-'A'] = true, true
+		case c >= 'a' && c <= 'z':
+			any[c-'a'] = true
+		}
+	}
+	return
+}
+
+// hasFoldFlag reports whether a pattern switches case folding on somewhere ((?i), (?i:…), (?si-m:…) …).
+func hasFoldFlag(src string) bool {
+	for i := 0; i+2 < len(src); i++ {
+		if src[i] == '\\' {
+			i++
+			continue
+		}
+		if src[i] == '(' && src[i+1] == '?' {
+			for j := i + 2; j < len(src) && src[j] != ':' && src[j] != ')' && src[j] != '-'; j++ {
+				if src[j] == 'i' {
+					return true
+				}
+			}
+		}
+	}
+	return false
+}
+
+// foldPairShape (the input shape of F26, over-approximated): in one sub-list, one rule without any
+// case-folding flag holds an upper-case letter and another rule holds the same letter and a
+// case-folding flag.
+func foldPairShape(rules []prule) bool {
+	for _, sub := range subLists(rules) {
+		for i, x := range sub {
+			if hasFoldFlag(x.src) {
+				continue
+			}
+			ux, _ := plainLetters(x.src)
+			for j, y := range sub {
+				if i == j || !hasFoldFlag(y.src) {
+					continue
+				}
+				_, ay := plainLetters(y.src)
+				for k := range ux {
+					if ux[k] && ay[k] {
+						return true
+					}
+				}
+			}
+		}
+	}
+	return false
 }
 
 // ---------------------------------------------------------------------------------------------
@@ -500,12 +568,11 @@ func checkList(ctx *core.Ctx, lc listCase) {
 	ctx.Count(fmt.Sprintf("list/rules=%d", len(rules)))
 	ctx.Count(fmt.Sprintf("list/excludes=%d", nExcl))
 	ctx.CountN("list/hosts", len(hosts))
-	classUnion := leakClass(rules, false)
-	classOrder := leakClass(rules, true)
-	if classUnion != "" {
-		ctx.Count("list/in-class/flag-leak")
-	} else {
-		ctx.Count("list/flag-neutral-or-last")
+	if leakShape(rules) {
+		ctx.Count("list/shape/top-flag-group-before-another-rule")
+	}
+	if foldPairShape(rules) {
+		ctx.Count("list/shape/upper-case-letter-and-same-letter-folded")
 	}
 	if emptyRule {
 		ctx.Count("list/outside-domain/empty-rule")
@@ -551,27 +618,22 @@ func checkList(ctx *core.Ctx, lc listCase) {
 		core.Fatalf("C17 eval: malformed answer %q", parts)
 	}
 	ans, rans, hans := parts[0], parts[1], parts[2]
-	// class "regexp-fold-factor" (decided by the model from the input alone): Go's regexp/syntax may
-	// factor `B…|(?i:b…)` into a case-sensitive `B(…|…)`; there the model's regexp semantics and the
-	// regexp package are known to differ, so the correspondence is not compared.
-	riskF := strings.Fields(parts[3])
-	if len(riskF) != 2 || (riskF[0] != "_" && len(riskF[0]) != len(rules)) {
+	// Go's regexp/syntax factors a single pattern such as `B.|(?i:b.)` into a case-sensitive `B(…|…)`:
+	// for a RULE that is itself such an alternation (decided by the model from the rule alone) the
+	// model's regular-expression semantics are not claimed to be the library's, and that rule is not
+	// compared. Nothing is joined any more, so there is no list-level class: lists whose rules are
+	// free of it — in particular `B.` next to `(?i:b.)` — are compared in full.
+	if parts[3] != "_" && len(parts[3]) != len(rules) {
 		core.Fatalf("C17 eval: malformed risk answer %q", parts[3])
 	}
 	ruleRisk := make([]bool, len(rules))
-	anyRisk := riskF[1] == "1"
+	anyRisk := false
 	for i := range rules {
-		ruleRisk[i] = riskF[0][i] == '1'
+		ruleRisk[i] = parts[3][i] == '1'
 		anyRisk = anyRisk || ruleRisk[i]
 	}
 	if anyRisk {
-		ctx.Count("list/in-class/regexp-fold-factor")
-		if classUnion == "" {
-			classUnion = "regexp-fold-factor"
-		}
-		if classOrder == "" {
-			classOrder = "regexp-fold-factor"
-		}
+		ctx.Count("list/outside-model/rule-inside-go-alternation-factoring")
 	}
 	if ans == "unsupported" {
 		core.Fatalf("C17 generator left the modelled fragment: rules %q hosts %q", raws, hosts)
@@ -592,7 +654,7 @@ func checkList(ctx *core.Ctx, lc listCase) {
 		perBits = append(perBits, bitsOf(per[i]))
 	}
 	if want := "ok " + core.JoinList(perBits); rans != want {
-		// rules inside the fold-factor class are not compared
+		// a rule that is itself inside Go's alternation-factoring deviation is not compared
 		mrows := core.SplitList(strings.TrimPrefix(rans, "ok "))
 		bad := !strings.HasPrefix(rans, "ok ") || len(mrows) != len(rules)
 		for i := 0; !bad && i < len(rules); i++ {
@@ -619,7 +681,7 @@ func checkList(ctx *core.Ctx, lc listCase) {
 	for j := range hosts {
 		if o.match[j] != want[j] {
 			ok = false
-			ctx.SpecFail("list matches host iff some include rule matches it on its own and no exclude rule does", classUnion, lc,
+			ctx.SpecFail("list matches host iff some include rule matches it on its own and no exclude rule does", "", lc,
 				fmt.Sprintf("Match(%q)=%v", hosts[j], o.match[j]), fmt.Sprintf("per-rule evaluation by regexp gives %v", want[j]))
 			break
 		}
@@ -654,7 +716,7 @@ func checkList(ctx *core.Ctx, lc listCase) {
 		}
 		if bitsOf(po.match) != bitsOf(o.match) {
 			ok = false
-			ctx.SpecFail("the order of rules does not matter", classOrder, lc,
+			ctx.SpecFail("the order of rules does not matter", "", lc,
 				fmt.Sprintf("Match=%s, permuted %v Match=%s", bitsOf(o.match), lc.Perm, bitsOf(po.match)), "")
 		}
 	}
@@ -721,12 +783,141 @@ func genValidRule(g *gen) (string, string) {
 	}
 }
 
+// grule: a generated rule, an example subject it is likely to match, and further subjects of interest.
+type grule struct {
+	pat, ex string
+	excl    bool
+	hosts   []string
+	fixed   bool // part of a directed shape: keeps its include/exclude mark
+}
+
+func upperFirst(s string) string {
+	if s != "" && s[0] >= 'a' && s[0] <= 'z' {
+		return string(s[0]-32) + s[1:]
+	}
+	return s
+}
+
+var foldTails = []struct{ pat, ex string }{
+	{".", "x"}, {".", "x"}, {"", ""}, {"[a-c]", "a"}, {`\d`, "7"}, {"(ar|az)", "ar"}, {".*", "zz"}, {"[a-z]+", "ar"}, {`\.com`, ".com"}, {".?x", "ax"},
+}
+
+// dirFoldPair — regression target for F26: one rule starts with an upper-case letter followed by
+// something that is not a literal, another rule of the same sub-list starts with the same letter
+// case-folded. (Joined with '|', Go's regexp/syntax factored the letter out and lost the fold flag.)
+func dirFoldPair(r *core.Rand) []grule {
+	l := pickByte(r, "bfxeacwiz")
+	u := strings.ToUpper(l)
+	ta, tb := core.Pick(r, foldTails), core.Pick(r, foldTails)
+	if r.Chance(50) {
+		tb = ta
+	}
+	a := grule{pat: u + ta.pat, ex: u + ta.ex, fixed: true}
+	var bp string
+	switch r.Intn(5) {
+	case 0, 1:
+		bp = "(?i:" + l + tb.pat + ")"
+	case 2:
+		bp = "(?i)" + l + tb.pat
+	case 3:
+		bp = "(?i:" + u + tb.pat + ")"
+	default:
+		bp = "(?i:" + l + ")" + tb.pat
+	}
+	b := grule{pat: bp, ex: l + tb.ex, fixed: true}
+	b.hosts = []string{l + ta.ex, u + tb.ex, l + tb.ex + "x", "q" + l + tb.ex}
+	rs := []grule{a, b}
+	if r.Bool() {
+		rs[0], rs[1] = rs[1], rs[0]
+	}
+	if r.Chance(30) { // the pair as exclude rules under a catch-all include
+		rs[0].excl, rs[1].excl = true, true
+		rs = append(rs, grule{pat: core.Pick(r, []string{".*", ".", "[a-zA-Z]"}), fixed: true})
+	}
+	return rs
+}
+
+// dirFlagLeak — regression target for F10: a rule with an unscoped top-level flag group followed, in
+// the same sub-list, by a rule whose answer would change under that flag. (Joined with '|', the flag
+// stayed in force for the rules that followed.)
+func dirFlagLeak(r *core.Rand) []grule {
+	w1, w2 := core.Pick(r, words), core.Pick(r, words)
+	var a, b grule
+	switch r.Intn(6) {
+	case 0: // (?s) would let '.' of the next rule match a line break
+		a = grule{pat: core.Pick(r, []string{"(?s)", "(?is)", "(?s-i)"}) + quoteLit(w1), ex: w1}
+		b = grule{pat: "a.b", ex: "axb", hosts: []string{"a\nb", "A\nB"}}
+	case 1: // (?m) would let ^ $ of the next rule match at a line break
+		a = grule{pat: core.Pick(r, []string{"(?m)", "(?im)"}) + quoteLit(w1), ex: w1}
+		b = grule{pat: "^" + quoteLit(w2) + "$", ex: w2, hosts: []string{"x\n" + w2, w2 + "\ny", "x\n" + w2 + "\ny"}}
+	case 2: // the flag group in the middle of the first rule
+		a = grule{pat: quoteLit(w1) + "(?i)" + quoteLit(w2), ex: w1 + w2, hosts: []string{w1 + strings.ToUpper(w2), strings.ToUpper(w1) + w2}}
+		b = grule{pat: quoteLit(w2), ex: w2, hosts: []string{strings.ToUpper(w2), upperFirst(w2)}}
+	case 3: // a case-sensitive upper-case rule after a case-folding one
+		a = grule{pat: "(?i)" + quoteLit(w1), ex: w1, hosts: []string{strings.ToUpper(w1)}}
+		b = grule{pat: quoteLit(strings.ToUpper(w2)), ex: strings.ToUpper(w2), hosts: []string{strings.ToLower(w2), upperFirst(strings.ToLower(w2))}}
+	default:
+		a = grule{pat: core.Pick(r, []string{"(?i)", "(?i)", "(?i)^", "(?i-s)", "(?iU)"}) + quoteLit(w1), ex: w1, hosts: []string{strings.ToUpper(w1)}}
+		b = grule{pat: quoteLit(w2), ex: w2, hosts: []string{strings.ToUpper(w2), upperFirst(w2)}}
+	}
+	a.fixed, b.fixed = true, true
+	rs := []grule{a, b}
+	if r.Chance(20) { // the leaking rule last: nothing could leak even when joined
+		rs[0], rs[1] = rs[1], rs[0]
+	}
+	if r.Chance(30) {
+		rs[0].excl, rs[1].excl = true, true
+		rs = append(rs, grule{pat: core.Pick(r, []string{".*", ".", "[a-zA-Z]"}), fixed: true})
+	}
+	return rs
+}
+
 func genList(ctx *core.Ctx, r *core.Rand) listCase {
 	g := &gen{r: r, feats: map[string]bool{}}
+	var rs []grule
 	n := r.Range(1, 6)
 	if r.Chance(30) {
 		n = 2
 	}
+	switch k := r.Intn(100); {
+	case k < 7:
+		rs = dirFoldPair(r)
+		n = r.Intn(3)
+		ctx.Count("list/generator/directed-fold-pair")
+	case k < 13:
+		rs = dirFlagLeak(r)
+		n = r.Intn(3)
+		ctx.Count("list/generator/directed-flag-group")
+	default:
+		ctx.Count("list/generator/grammar")
+	}
+	for i := 0; i < n; i++ {
+		p, ex := genValidRule(g)
+		if r.Chance(1) {
+			p, ex = "", "" // outside the property's domain: the empty expression matches every subject
+		}
+		nr := grule{pat: p, ex: ex, excl: r.Chance(30)}
+		pos := len(rs)
+		if len(rs) > 0 && rs[0].fixed {
+			pos = r.Intn(len(rs) + 1) // around / between the rules of a directed shape
+		}
+		rs = append(rs[:pos], append([]grule{nr}, rs[pos:]...)...)
+	}
+	nIncl := 0
+	for _, x := range rs {
+		if !x.excl {
+			nIncl++
+		}
+	}
+	if nIncl == 0 && r.Chance(95) {
+		for i := len(rs) - 1; i >= 0; i-- {
+			if !rs[i].fixed {
+				rs[i].excl = false
+				break
+			}
+		}
+	}
+	n = len(rs)
 	lc := listCase{Kind: "list"}
 	var hosts []string
 	seen := map[string]bool{}
@@ -736,26 +927,21 @@ func genList(ctx *core.Ctx, r *core.Rand) listCase {
 			hosts = append(hosts, h)
 		}
 	}
-	nIncl := 0
-	for i := 0; i < n; i++ {
-		p, ex := genValidRule(g)
-		if r.Chance(1) {
-			p, ex = "", "" // outside the property's domain; exercises build's nil branch
-		}
-		excl := r.Chance(30)
-		if i == n-1 && nIncl == 0 && r.Chance(95) {
-			excl = false
-		}
-		if !excl {
-			nIncl++
-		}
-		raw := p
-		if excl {
-			raw = "-" + p
-		} else if strings.HasPrefix(p, "-") {
-			raw = `\` + p // an include pattern cannot start with '-'
+	for _, x := range rs {
+		raw := x.pat
+		if x.excl {
+			raw = "-" + x.pat
+		} else if strings.HasPrefix(x.pat, "-") {
+			raw = `\` + x.pat // an include pattern cannot start with '-'
 		}
 		lc.RulesHex = append(lc.RulesHex, core.HexS(raw))
+		for _, h := range x.hosts {
+			addHost(h)
+		}
+		if x.fixed && x.ex == "" {
+			continue
+		}
+		ex := x.ex
 		addHost(ex)
 		addHost(mutate(r, ex))
 		if r.Chance(50) {
@@ -772,7 +958,26 @@ func genList(ctx *core.Ctx, r *core.Rand) listCase {
 		addHost(mutate(r, ""))
 	}
 	if len(hosts) > 10 {
-		core.Shuffle(r, hosts)
+		// the subjects nominated by a directed shape stay; the rest is sampled
+		keep := 0
+		for _, x := range rs {
+			if x.fixed {
+				for _, h := range append([]string{x.ex}, x.hosts...) {
+					for i := keep; i < len(hosts); i++ {
+						if hosts[i] == h {
+							hosts[keep], hosts[i] = hosts[i], hosts[keep]
+							keep++
+							break
+						}
+					}
+				}
+			}
+		}
+		if keep > 10 {
+			keep = 10
+		}
+		tail := hosts[keep:]
+		core.Shuffle(r, tail)
 		hosts = hosts[:10]
 	}
 	for _, h := range hosts {
@@ -784,7 +989,7 @@ func genList(ctx *core.Ctx, r *core.Rand) listCase {
 			perm[i] = i
 		}
 		core.Shuffle(r, perm)
-		if r.Chance(40) { // plain reversal moves every leaking rule
+		if r.Chance(40) { // plain reversal moves every rule past every other
 			for i := range perm {
 				perm[i] = n - 1 - i
 			}
@@ -835,7 +1040,9 @@ func Run(ctx *core.Ctx) {
 	ctx.SetRule("lists of 1-6 rules drawn from the pattern grammar (literals, escapes, '.', classes, Perl classes, * + ? with lazy suffix, ^ $ \\b \\B \\A \\z, " +
 		"alternation, capturing / non-capturing / flag-scoped groups, unscoped flag groups with i m s U and '-'), each marked include or exclude, against up to 10 candidate " +
 		"hosts derived from the rules (an example match per rule, case variants, near misses, embedded line breaks); a list case is non-trivial when some rule matches " +
-		"some candidate on its own and the list has at least two rules or an exclude rule; item cases (damaged patterns through ParseRegexpListItem) are non-trivial when accepted; " +
+		"some candidate on its own and the list has at least two rules or an exclude rule; about one list in eight is built around a shape on which the code failed before " +
+		"the repair of F10/F26 (a rule with an unscoped top-level flag group followed by a rule whose answer that flag would change; an upper-case letter leading one rule and " +
+		"the same letter case-folded leading another), with the subjects that told the difference; item cases (damaged patterns through ParseRegexpListItem) are non-trivial when accepted; " +
 		"distinct = distinct canonical inputs")
 	ctx.Assume("Go's regexp package (parser, flag scoping, matching engines) is trusted: it is the per-rule oracle, and its flag-scoping rule is the modelled fact")
 	for _, c := range core.LoadCorpus(ctx.Root, "C17") {
